@@ -238,8 +238,10 @@ def check_lines(r, ctx, lines, model):
 
 def run(r):
     r.rule = ("template names = all '/'-joins of 1..4 (quick; + 20000 sampled 5-joins) or 1..5 (thorough) segments over the alphabet "
-              "{'', '.', '..', '...', 'a', '.a', 'a.', 'a..b', 'a\\\\b', '..\\\\a', NUL, '%2e%2e', U+2024 x2, U+FF0E x2, 'a' x 256} "
-              "+ targeted spellings of canary paths (absolute, climbing, encoded, look-alike separators) + random char/byte noise; "
+              "{'', '.', '..', '...', 'a', '.a', 'a.', 'a..b', 'a\\\\b', '..\\\\a', NUL, '%2e%2e', U+2024 x2, U+FF0E x2, 'a' x 256, 'only_outside.txt' (a plain name that exists in every ancestor of the base, never beneath it)} "
+              "+ targeted spellings of canary paths (absolute, climbing, encoded, look-alike separators) + every canary file's base name and its "
+              "name relative to each directory above it (plain, rooted, trailing/doubled slashes, below a/ and a/a/; incl. names that exist "
+              "only outside the base) + random char/byte noise; "
               "each name against the scratch tree's base (absolute spelling) and one of 12 other bases (4 more spellings of the "
               "scratch base, 8 disk-free bases) in rotation; a name is non-trivial when it contains '/', '.' or '\\\\'")
     r.assumptions = ["Unix path semantics (separator '/', no prefixes); symbolic links inside the base are out of scope per the statement",
